@@ -170,35 +170,51 @@ def run(ctx):
     unit.check_function(ctx, "C08.UNIT", delta)
     dcfg = ctx.cfg(delta)
     df = ctx.facts(delta)
-    sh = [n for n in dcfg.live_nodes() if n.kind == "stmt" and isinstance(n.ast, ast.AugAssign) and src(n.ast.target) == "kwargs['seconds']"]
-    oks = len(sh) == 1 and isinstance(sh[0].ast.op, ast.Sub) and poly(sh[0].ast.value) == {("delta.seconds",): 1, ("delta.days",): 86400} and ("isend", True) in df.at(sh[0])
-    ctx.ob("C08.UNIT", delta, "only the END rule is moved back by the saving (its time is given in daylight time, transitions are kept in standard time)", oks,
-           construct="kwargs['seconds'] -= delta.seconds + delta.days * 86400", analysis="polynomial normal form + facts")
-    dd = [n for n in dcfg.live_nodes() if n.kind == "stmt" and isinstance(n.ast, ast.Assign) and src(n.ast.targets[0]) == "delta"]
-    ctx.ob("C08.UNIT", delta, "the saving is dst offset minus std offset", len(dd) == 1 and poly(dd[0].ast.value) == {("self._dst_offset",): 1, ("self._std_offset",): -1}, construct="delta = self._dst_offset - self._std_offset")
-    secs = sorted(src(n.ast.value) for n in dcfg.live_nodes() if n.kind == "stmt" and isinstance(n.ast, ast.Assign) and src(n.ast.targets[0]) == "kwargs['seconds']")
-    ctx.ob("C08.UNIT", delta, "the rule time is passed as seconds; the POSIX default is 02:00:00 = 7200 s", secs == ["7200", "x.time"], construct="kwargs['seconds'] values", detail=str(secs))
+    from .. import summ
+    DELTA_REF = """
+        from dateutil import relativedelta
+        kwargs = {}
+        if x.month is not None:
+            kwargs["month"] = x.month
+            if x.weekday is not None:
+                kwargs["weekday"] = relativedelta.weekday(x.weekday, x.week)
+                if x.week > 0:
+                    kwargs["day"] = 1
+                else:
+                    kwargs["day"] = 31
+            elif x.day:
+                kwargs["day"] = x.day
+        elif x.yday is not None:
+            kwargs["yearday"] = x.yday
+        elif x.jyday is not None:
+            kwargs["nlyearday"] = x.jyday
+        if not kwargs:
+            if not isend:
+                kwargs["month"] = 4
+                kwargs["day"] = 1
+                kwargs["weekday"] = relativedelta.SU(+1)
+            else:
+                kwargs["month"] = 10
+                kwargs["day"] = 31
+                kwargs["weekday"] = relativedelta.SU(-1)
+        if x.time is not None:
+            kwargs["seconds"] = x.time
+        else:
+            kwargs["seconds"] = 7200
+        if isend:
+            delta = self._dst_offset - self._std_offset
+            kwargs["seconds"] -= delta.seconds + delta.days * 86400
+        return relativedelta.relativedelta(**kwargs)
+        """
+    summ.check_ref(ctx, "C08.UNIT", delta, "the rule time is passed as seconds (POSIX default 02:00:00 = 7200 s); only the END rule is moved back by the saving "
+                   "(dst offset minus std offset, as seconds + 86400 * days: its time is given in daylight time, transitions are kept in standard time)",
+                   DELTA_REF, construct="tzstr._delta table (seconds)")
     xt = [n for n in pcfg.live_nodes() if n.kind == "stmt" and isinstance(n.ast, ast.AugAssign) and src(n.ast.target) == "x.time"]
     ctx.ob("C08.UNIT", tzp, "the optional seconds field of a rule time is added with factor 1", len(xt) == 1 and src(xt[0].ast.value) == "int(l[i])" and isinstance(xt[0].ast.op, ast.Add), construct="x.time += int(l[i])")
 
     # ---------------------------------------------------------------- C08.RULEKEYS
-    want = {"month": ("x.month", "x.month is not None"), "weekday": ("relativedelta.weekday(x.weekday, x.week)", "x.weekday is not None"),
-            "yearday": ("x.yday", "x.yday is not None"), "nlyearday": ("x.jyday", "x.jyday is not None")}
-    got = {}
-    for n in dcfg.live_nodes():
-        if n.kind == "stmt" and isinstance(n.ast, ast.Assign) and isinstance(n.ast.targets[0], ast.Subscript) and src(n.ast.targets[0].value) == "kwargs" \
-                and isinstance(n.ast.targets[0].slice, ast.Constant):
-            got.setdefault(n.ast.targets[0].slice.value, []).append(n)
-    for k, (val, cond) in want.items():
-        ns = [n for n in got.get(k, []) if "x." in src(n.ast.value)]
-        ok = len(ns) == 1 and src(ns[0].ast.value) == val and (cond, True) in df.at(ns[0])
-        ctx.ob("C08.RULEKEYS", delta, "rule key %r is fed from %s when that was parsed" % (k, val), ok, construct="kwargs[%r]" % k,
-               detail="" if ok else str([(src(n.ast.value), sorted(t for t, tv in df.at(n) if tv)) for n in got.get(k, [])]), analysis="FIELD mapping table + facts")
-    days = sorted((src(n.ast.value), tuple(sorted(t for t, tv in df.at(n) if "week" in t and "weekday" not in t for _ in [0] if True))) for n in got.get("day", []))
-    d1 = [n for n in got.get("day", []) if src(n.ast.value) == "1" and ("x.week > 0", True) in df.at(n)]
-    d31 = [n for n in got.get("day", []) if src(n.ast.value) == "31" and ("x.week > 0", False) in df.at(n)]
-    ctx.ob("C08.RULEKEYS", delta, "a week counted from the start of the month anchors on day 1, a week counted from the end on day 31", len(d1) == 1 and len(d31) == 1,
-           construct="kwargs['day'] anchors", analysis="must-hold branch facts")
+    summ.check_ref(ctx, "C08.RULEKEYS", delta, "Mm.w.d -> month + weekday(d, w) + day 1 (w > 0) or 31; Mm with a day -> month + day; n -> yearday; Jn -> nlyearday; "
+                   "no rule -> first Sunday of April (start) / last Sunday of October (end)", DELTA_REF, construct="tzstr._delta table (rule keys)")
     yd = [n for n in pcfg.live_nodes() if n.kind == "stmt" and isinstance(n.ast, ast.Assign) and src(n.ast.targets[0]) in ("x.yday", "x.jyday")]
     ymap = {src(n.ast.targets[0]): poly(n.ast.value, atomize=lambda e: "F" if isinstance(e, ast.Call) and src(e.func) == "int" else None) for n in yd}
     ctx.ob("C08.RULEKEYS", tzp, "zero-based day n becomes the one-based yearday exactly once (+1 in the parser); Jn is taken as is", ymap == {"x.yday": {("F",): 1, (): 1}, "x.jyday": {("F",): 1}},
